@@ -7,7 +7,7 @@ import ast
 import re
 
 from .. import regexlang as rx
-from ..astutil import call_attr, calls_in, guard_facts, unparse, walk_local
+from ..astutil import call_attr, call_name, calls_in, guard_facts, unparse, walk_local
 from ..cfg import CFG
 from ..dataflow import resolved_text
 from ..report import Finding, Report
@@ -330,11 +330,39 @@ def check_registry(idx: Index, rep: Report) -> None:
     r.samples[:] = ["canonicalize -> xdsl.transforms.canonicalize.CanonicalizePass (name = 'canonicalize')"]
 
 
+def check_pipeline_instances(idx: Index, rep: Report) -> None:
+    """A pipeline spec may name the same pass several times with different options: the pass built for the i-th entry
+    must come from the i-th entry's own spec (from_pass_spec(<that entry>)), not from a table keyed by the pass name."""
+    r = rep.rule("C18.R5", "PassPipeline.parse_spec builds the pass of each pipeline entry from that entry's own spec (no reuse of an instance by pass name)", floor=1)
+    from ..setbuild import describe as describe_set
+
+    f = idx.func("xdsl/passes.py", "PassPipeline.parse_spec")
+    cfg = CFG(f.node)
+    ctor = [c for c in calls_in(f.node) if call_name(c).endswith("PassPipeline") and c.args]
+    if len(ctor) != 1:
+        raise AnalysisError(f"{f.fq}: construction of the PassPipeline not found")
+    d = describe_set(f.node, cfg, ctor[0].args[0], cfg.node_of(ctor[0]))
+    if d.unknown or d.bases or not d.adds:
+        raise AnalysisError(f"{f.fq}: how the tuple of passes is built was not understood ({d.unknown or sorted(d.bases)})")
+    for ad in d.adds:
+        inst = f"{f.fq}:{ad.elem[:40]}"
+        if len(ad.iters) != 1:
+            raise AnalysisError(f"{f.fq}: pass `{ad.elem}` is not built in one iteration over the specs")
+        var = ad.iters[0][0]
+        e_ = ast.parse(ad.elem, mode="eval").body
+        from_spec = [c for c in ast.walk(e_) if isinstance(c, ast.Call) and call_attr(c) == "from_pass_spec" and c.args and unparse(c.args[0]) == var]
+        if from_spec and e_ is from_spec[0]:
+            r.ok(inst, f"{f.loc} each entry `{var}` gives `{ad.elem[:60]}`")
+        else:
+            r.fail(inst, Finding("C18.R5", f.fq, "instance-not-from-own-spec", f"the pass for pipeline entry `{var}` is `{ad.elem[:70]}`, not `<pass>.from_pass_spec({var})`: a pass repeated with different options (`p{{a=1}},q,p{{a=2}}`) gets the instance built for another occurrence, so the printed pipeline re-parses to a different pipeline", f.loc))
+
+
 def check(idx: Index, rep: Report, tier: str) -> str:
     rep.run(check_writer_forms, idx, rep)
     rep.run(check_escapes, idx, rep)
     rep.run(check_empty_values, idx, rep)
     rep.run(check_registry, idx, rep)
+    rep.run(check_pipeline_instances, idx, rep)
     return (
         "Regular-language analysis of each writer form of ArgSpec._spec_parameter_type_str against the first-match token "
         "rules of arg_spec.py and the value parser's type mapping; agreement of the lexer's escape alphabet with the decoder; "
